@@ -125,6 +125,35 @@ def cases(ctx):
         prog += [["add", [["R", 0], ["R", 0], ["C", 10]]], ["blt", [["R", 0], ["C", 0], 0]]]
         yield {"kind": "direct", "nq": nq, "seed_prog": seed, "prog": prog, "debug": rng.random() < 0.3, "load": False, "backedge": True,
                "loaded_two_qubit": False, "script": [rng.randrange(2) for _ in range(8)]}
+    for _ in range(ctx.n(60, 5000)):
+        # two gates on the same register directly after one another, the second one a branch target (a loop head entered again
+        # by the back-edge, or the landing point of a taken forward branch): whatever the transpiler does across the seam of the
+        # two expansions, the path that jumps in runs the second gate alone
+        nq = rng.choice([2, 3])
+        seed = []
+        for v in range(nq):
+            seed += [["set", [["Q", 0], v]], ["qalloc", [["Q", 0]]], ["init", [["Q", 0]]], ["set", [["Q", 0], v]], [rng.choice(["h", "k", "x", "t"]), [["Q", 0]]]]
+        seed += [["set", [["R", 0], 0]], ["set", [["C", 0], rng.choice([2, 3])]], ["set", [["C", 10], 1]]]
+        a = rng.randrange(nq)
+        b2 = rng.choice([x for x in range(nq) if x != a])
+
+        def gate_on_q0():
+            r_ = rng.random()
+            if r_ < 0.6:
+                return [rng.choice(["h", "h", "x", "k", "s", "z"]), [["Q", 0]]]
+            if r_ < 0.8:
+                return [rng.choice(["cnot", "cphase"]), [["Q", 1], ["Q", 0]]]
+            return [rng.choice(["cnot", "cphase"]), [["Q", 0], ["Q", 1]]]
+        if rng.random() < 0.6:
+            # loop: the second gate is the loop head
+            prog = [["set", [["Q", 0], a]], ["set", [["Q", 1], b2]], gate_on_q0(), gate_on_q0(), ["add", [["R", 0], ["R", 0], ["C", 10]]],
+                    ["blt", [["R", 0], ["C", 0], 3]]]
+        else:
+            # forward branch over the first gate (taken or not, by the value of R1)
+            prog = [["set", [["Q", 0], a]], ["set", [["Q", 1], b2]], ["set", [["R", 1], rng.choice([0, 1])]], ["bez", [["R", 1], 5]],
+                    gate_on_q0(), gate_on_q0(), ["h", [["Q", 1]]]]
+        yield {"kind": "direct", "nq": nq, "seed_prog": seed, "prog": prog, "debug": rng.random() < 0.3, "load": False, "seam": True,
+               "loaded_two_qubit": False, "script": [rng.randrange(2) for _ in range(8)]}
     for _ in range(ctx.n(30, 2000)):
         # the operand register of a gate inside a loop is `set` again BELOW the gate: in the second iteration it points at
         # another qubit than the text above the gate says (known finding: values are tracked in text order)
